@@ -13,7 +13,7 @@ import json
 import hostlib as H
 import vlib
 
-THEOREMS = ["C16_terminates", "C16_fuel_bound", "C16_reach", "C16_links", "C16_notfound", "C16_once", "C16_index_terminates"]
+THEOREMS = ["C16_terminates", "C16_fuel_bound", "C16_session_terminates", "C16_reach", "C16_links", "C16_notfound", "C16_once", "C16_index_terminates"]
 TRUSTED = [
     "Coq 8.16.1 kernel (vm_compute only inside Examples)",
     "abstraction of the parse: a text is represented by its Include/Class descendants in document order "
